@@ -216,12 +216,13 @@ class Disassembler:
                 if rst_args:
                     subctl, sublengths = rst_args
                     ra_addr = address + length
-                    ra_len = sum(s[0] for s in sublengths)
-                    if subctl == 'B':
-                        instructions.append(self._defb_line(ra_addr, self.snapshot[ra_addr:ra_addr + ra_len], sublengths))
-                    elif subctl == 'W':
-                        instructions.extend(self._defw_lines(ra_addr, ra_addr + ra_len, sublengths))
-                    address += ra_len
+                    ra_len = min(sum(s[0] for s in sublengths), 65536 - ra_addr)
+                    if ra_len > 0:
+                        if subctl == 'B':
+                            instructions.append(self._defb_line(ra_addr, self.snapshot[ra_addr:ra_addr + ra_len], sublengths))
+                        elif subctl == 'W':
+                            instructions.extend(self._defw_lines(ra_addr, ra_addr + ra_len, sublengths))
+                        address += ra_len
             address += length
         return instructions
 
